@@ -9,7 +9,7 @@
 
    Sample is modelled WITH the proposed fix fixes/C25_sample_returns_sample.patch (`return c`);
    the code as pinned (`return s`) is kept as the mutant [sample_prefix]. *)
-From Coq Require Import List NArith ZArith Bool.
+From Coq Require Import List NArith ZArith Bool Permutation.
 From K.Gen Require Import C25_consts.
 Import ListNotations.
 
@@ -175,3 +175,14 @@ Definition C25_check (i : input) (o : output) : bool :=
       nodupb cs && subsetb cs hosts && Nat.leb (length cs) 3
   | _, _ => false
   end.
+
+(* ---- hypotheses of the theorems: the two iteration orders are legal -------------------------
+   the set is duplicate-free, sord is an iteration order of it, and (for requests) iord is an
+   iteration order of the sample drawn from sord *)
+Definition oracles_ok (i : input) (sord iord : list N) : Prop :=
+  NoDup (set_of i) /\ Permutation sord (set_of i) /\
+  match i with ISample _ _ => True | IReq k _ _ => Permutation iord (sample (sample_size k) sord) end.
+
+(* fault patterns of the refutation witnesses (also harness seed cases) *)
+Definition all_net : list (N * outcome) := [(0, NetErr); (1, NetErr); (2, NetErr); (3, NetErr)]%N.
+Definition all_500 : list (N * outcome) := [(0, OtherErr); (1, OtherErr); (2, OtherErr); (3, OtherErr)]%N.
